@@ -20,12 +20,12 @@ out=$MUTOUT
 STUB
 chmod +x $A/tools/mut.sh
 for ID in "$@"; do
-  for f in $A/gsv/mutants/$ID/*.sh $A/gsv/mutants/$ID/preserve/*.sh $A/gsv/mutants/$ID/silent/*.sh $A/gsv/benign/$ID/*.sh; do
+  for f in $A/gsv/mutants/$ID/*.sh $A/gsv/mutants/$ID/preserve/*.sh $A/gsv/mutants/$ID/silent/*.sh $A/gsv/mutants/$ID/preserving/*.sh $A/gsv/benign/$ID/*.sh; do
     [ -f "$f" ] || continue
     name=$(basename $f .sh)
     kind=mutants
     case "$name" in ok_*|silent-*) kind=benign;; esac
-    case "$f" in */preserve/*|*/benign/*|*/silent/*) kind=benign;; esac
+    case "$f" in */preserve/*|*/preserving/*|*/benign/*|*/silent/*) kind=benign;; esac
     mkdir -p /verif/gsv/$kind/$ID
     desc=$(grep -m1 '^# ' $f | sed 's/^# //')
     MUTOUT=/verif/gsv/$kind/$ID/$name.mut MUTDESC="$desc" bash $f >/dev/null 2>&1 || echo "convert failed: $f"
